@@ -56,10 +56,11 @@ class EnsembleSampler(MarkovChain):
 
         if starting_positions is not None:
             # store core data
-            # take a copy so that advancing the sampler never modifies the caller's array
+            # take a copy so that advancing the sampler never modifies the caller's array,
+            # as floats so that integer-typed starting positions do not truncate the moves
             self.walker_positions = self.__validate_starting_positions(
                 starting_positions
-            ).copy()
+            ).astype(float)
             self.n_walkers, self.n_parameters = starting_positions.shape
             self.walker_probs = array(
                 [self.posterior(t) for t in self.walker_positions]
